@@ -109,6 +109,17 @@ func inject(d string, m *gm.Schema, ins []Inject) {
 		case "table-name":
 			lg := m.Table("logs")
 			lg.Name = "t" + in.S
+		case "first-table-name":
+			// the first table of the schema: its name lands in the comment that opens a file creating the schema
+			old, name := m.Tables[0].Name, "f"+in.S
+			m.Tables[0].Name = name
+			for ti := range m.Tables {
+				for fi := range m.Tables[ti].FKs {
+					if m.Tables[ti].FKs[fi].RefTable == old {
+						m.Tables[ti].FKs[fi].RefTable = name
+					}
+				}
+			}
 		}
 	}
 }
